@@ -748,6 +748,13 @@ pub fn drive(prop: &'static str, f: PropFn, a: &Args) -> i32 {
                 Verdict::Known(sig) if *sig == fd.sig => {
                     println!("KNOWN-FINDING: property={} {} [{} {}]", prop, fd.what, fd.id, fd.sig);
                 }
+                // A finding identified by its input alone (`sig=input:<marker>`): the check has no deviating
+                // model for it and its generators exclude the shape by construction, so the witness file IS
+                // the listed finding. It must still fail, and with the recorded marker in its message; any
+                // other failure of the same input is reported like every unlisted violation.
+                Verdict::Fail(m) if fd.sig.starts_with("input:") && m.contains(&fd.sig["input:".len()..]) => {
+                    println!("KNOWN-FINDING: property={} {} [{} {}]", prop, fd.what, fd.id, fd.sig);
+                }
                 Verdict::Fail(m) => {
                     // The witness fails differently from what is recorded: a new violation.
                     println!("witness {} fails in an unlisted way: {}", w, m);
